@@ -114,8 +114,16 @@ async def run_history(case):
     sent = []
     await rig.start()
     try:
+        built = []
         for i, d in enumerate(case["dgrams"]):
-            data, label, tag = build(i, d, caps)
+            if d["kind"] == "repeat" and built:
+                # a byte-identical copy of an earlier datagram (devices repeat their status broadcast unchanged)
+                data, label, tag = built[d.get("of", 0) % len(built)]
+            elif d["kind"] == "repeat":
+                data, label, tag = build(i, dict(d, kind="valid"), caps)
+            else:
+                data, label, tag = build(i, d, caps)
+            built.append((data, label, tag))
             pi = d.get("port", 0) % nports
             sent.append((pi, label, tag, d["kind"]))
             await rig.send(rig.ports[pi], data)
@@ -145,11 +153,16 @@ def body(rep, case, sub="histories"):
             bad_seen.add(pi)
     labels = sorted({f"has-{k}" for _, _, _, k in sent}) + [f"ports={case['ports']}"] + (["callback-raises"] if raise_on else [])
     rep.tick(sub, key=[(pi, label, kind) for pi, label, tag, kind in sent] + [sorted(raise_on)], nontrivial=nt, sample=case, labels=labels)
-    port_of = {tag: pi for pi, label, tag, kind in sent if tag}
+    ports_of = {}
+    for pi, label, tag, kind in sent:
+        if tag:
+            ports_of.setdefault(tag, set()).add(pi)
+    multi = {t for t, ps in ports_of.items() if len(ps) > 1}
+    port_of = {tag: pi for pi, label, tag, kind in sent if tag and tag not in multi}
     label_of = {tag: label for pi, label, tag, kind in sent if tag}
     if dead:
-        kinds = sorted({k for _, l, _, k in sent if l != "valid"})
-        raise Violation("C07/delivery-stops/after-" + ("+".join(kinds) or ("raising-callback" if raise_on else "valid-only")), case,
+        bad = any(l != "valid" for _, l, _, _ in sent)
+        raise Violation("C07/delivery-stops/after-" + ("bad-datagram" if bad else "raising-callback" if raise_on else "valid-only"), case,
                         "closing sentinel delivered on every port", {"dead_port_indices": dead, "loop_errors": loop_errors[:3]})
     for t in tags:
         if t not in label_of:
@@ -157,17 +170,30 @@ def body(rep, case, sub="histories"):
         if label_of[t] == "ignored":
             kind = next(k for _, _, tg, k in sent if tg == t)
             raise Violation(f"C07/ignored-datagram-delivered/{kind}", case, "no callback", t)
+    for t in multi:
+        if label_of[t] == "valid":
+            n_sent = sum(1 for _, _, tg, _ in sent if tg == t)
+            if tags.count(t) != n_sent:
+                raise Violation("C07/repeated-broadcast-count", case, {"tag": t, "deliveries": n_sent}, {"tag": t, "deliveries": tags.count(t)})
     for pi in range(case["ports"]):
-        want = [tag for p, label, tag, kind in sent if p == pi and label == "valid"]
+        want = [tag for p, label, tag, kind in sent if p == pi and label == "valid" and tag not in multi]
         got = [t for t in tags if port_of.get(t) == pi and label_of.get(t) == "valid"]
         if want != got:
-            if len(got) > len(set(got)):
+            from collections import Counter
+            cw, cg = Counter(want), Counter(got)
+            if any(cg[t] > cw[t] for t in cg):
                 what = "duplicate"
-            elif set(got) != set(want):
-                missing = [t for t in want if t not in got]
-                first = want.index(missing[0]) if missing else 0
-                prev_kinds = sorted({k for p, l, tg, k in sent[:next(i for i, s in enumerate(sent) if s[2] == missing[0])] if l != "valid"}) if missing else []
-                what = "lost" + ("/after-raising-callback" if raise_on and not prev_kinds else "/after-" + "+".join(prev_kinds) if prev_kinds else "")
+            elif cw != cg:
+                missing = next(t for t in want if cg[t] < cw[t])
+                idx = next(i for i, s_ in enumerate(sent) if s_[2] == missing)
+                if cw[missing] > 1:
+                    what = "lost/repeated-broadcast"
+                elif any(l != "valid" for _, l, _, _ in sent[:idx]):
+                    what = "lost/after-bad-datagram"
+                elif raise_on:
+                    what = "lost/after-raising-callback"
+                else:
+                    what = "lost"
             else:
                 what = "reordered"
             raise Violation(f"C07/{what}", case, {"port_index": pi, "valid_order": want}, {"port_index": pi, "callback_order": got})
@@ -192,6 +218,8 @@ def dgram(nports):
         st.builds(lambda p, f, b, s: {"kind": "flipped", "port": p, "family": f, "bit": b, "seed": s}, port, fam, st.integers(0, 1343), seed),
         st.builds(lambda p, f, c: {"kind": "unknown", "port": p, "family": f, "code": c}, port, fam, st.integers(0, 65535)),
         st.builds(lambda p, f, h, s: {"kind": "undecodable", "port": p, "family": f, "how": h, "seed": s}, port, fam, st.integers(0, 2), seed),
+        st.builds(lambda p, f, o: {"kind": "repeat", "port": p, "family": f, "of": o}, port, fam, st.integers(0, 59)),
+        st.builds(lambda p, f: {"kind": "repeat", "port": p, "family": f, "of": -1}, port, fam),
     )
 
 
